@@ -359,25 +359,18 @@ class LiveSetSpec(Spec):
             self.calls["self.propagate_region_liveness"] = LiveSetSpec.RegionCallee()
 
     class RegionCallee(Spec):
-        """propagate_region_liveness as a callee: the live set only grows (monotone); `changed` may be set."""
+        """propagate_region_liveness as a callee: its postcondition, discharged by unit PropagateRegion (the two methods are mutually recursive over the
+        finite op tree: partial correctness)."""
 
         prop, file, qualname = PROP, DCE, "LiveSet.propagate_region_liveness"
         modifies = ["dict#dom", "changed"]
         ghost_modifies = ["visited_regions"]
-        trusted = True
 
         def ghost_update(self, old, st, a, res):
             return {"visited_regions": z3.Store(old.ghost["visited_regions"], a["region"].z, True)}
 
         def post(self, old, st, a, res):
-            ls = a["self"].z
-            x, r = z3.Ints("rc!x rc!r")
-            s = old.sel("_live_ops", ls)
-            return [A("monotone", forall([x], z3.Implies(old.dict_has(s, x), st.dict_has(s, x)))),
-                    A("other-sets", forall([r], z3.Implies(r != s, st.dict_dom(r) == old.dict_dom(r)))),
-                    # (the same two clauses this unit proves of propagate_op_liveness, which the region sweep calls in a loop)
-                    A("changed-is-raised-when-something-becomes-live", forall([x], z3.Implies(z3.And(z3.Not(old.dict_has(s, x)), st.dict_has(s, x)), st.sel("changed", ls)))),
-                    A("changed-is-never-lowered", z3.Implies(old.sel("changed", ls), st.sel("changed", ls)))]
+            return [A(n, z) for n, z in region_post(old, st, a["self"].z)]
 
     def setup(self, st, inst):
         ls = st.declare_input("self", z3.Int("self"))
@@ -413,13 +406,86 @@ class LiveSetSpec(Spec):
                     # region_dce iterates the sweep until `changed` stays False: an op that becomes live in this call must raise it, or the fixpoint
                     # loop stops before the ops that feed it (defined textually later, in a graph region) have been marked
                     C("changed-is-raised-when-the-op-becomes-live", z3.Implies(z3.And(z3.Not(old.dict_has(s, o)), st.dict_has(s, o)), st.sel("changed", ls))),
+                    C("changed-is-raised-when-anything-becomes-live", forall([x], z3.Implies(z3.And(z3.Not(old.dict_has(s, x)), st.dict_has(s, x)), st.sel("changed", ls)))),
                     C("changed-is-never-lowered", z3.Implies(old.sel("changed", ls), st.sel("changed", ls))),
+                    C("no-other-set-changes", forall([x], z3.Implies(x != s, st.dict_dom(x) == old.dict_dom(x)))),
                     # observable ops may sit inside the regions of a kept op (also of a removable region op kept alive by a user): whenever the op is
                     # live after the call, liveness has been propagated into every nested region.  (Regions of an op that stays dead need not be visited.)
                     C("liveness-is-propagated-into-every-region-of-a-live-op",
                       z3.Implies(st.dict_has(s, o), z3.And(*[st.ghost["visited_regions"][z3.Int(f"region{i}")] for i in range(self.nregions)])) if self.nregions else z3.BoolVal(True))]
         return out
 
+
+
+PO_SEQ, PO_N = z3.Function("post_order_of", I, z3.ArraySort(I, I)), z3.Function("n_post_order_of", I, I)
+
+
+def region_post(old, st, ls):
+    """The contract of LiveSet.propagate_region_liveness (assumed by propagate_op_liveness, proved by unit PropagateRegion)."""
+    x, r = z3.Ints("rc!x rc!r")
+    s = old.sel("_live_ops", ls)
+    return [("monotone", forall([x], z3.Implies(old.dict_has(s, x), st.dict_has(s, x)))),
+            ("other-sets", forall([r], z3.Implies(r != s, st.dict_dom(r) == old.dict_dom(r)))),
+            ("changed-is-raised-when-something-becomes-live", forall([x], z3.Implies(z3.And(z3.Not(old.dict_has(s, x)), st.dict_has(s, x)), st.sel("changed", ls)))),
+            ("changed-is-never-lowered", z3.Implies(old.sel("changed", ls), st.sel("changed", ls))),
+            ("same-set-object", st.sel("_live_ops", ls) == s)]
+
+
+class PropagateRegion(Spec):
+    """
+    LiveSet.propagate_region_liveness(region): sweeps the blocks in post-order and the ops of each block backwards through propagate_op_liveness (used
+    through its discharged contract).  Establishes exactly what propagate_op_liveness assumes of it: the live set only grows, no other set changes,
+    `changed` is raised whenever something becomes live and is never lowered.
+    """
+
+    prop, file, qualname = PROP, DCE, "LiveSet.propagate_region_liveness"
+    modifies = ["dict#dom", "changed"]
+
+    class OpCallee(Spec):
+        prop, file, qualname = PROP, DCE, "LiveSet.propagate_op_liveness"
+        modifies = ["dict#dom", "changed"]
+
+        def post(self, old, st, a, res):
+            return [Clause(n, z, "aux") for n, z in region_post(old, st, a["self"].z)]  # (each clause is one of the proved clauses of unit propagate_op_liveness)
+
+    def __init__(self):
+        from pyvc.engine import Res
+
+        self.calls = {"PostOrderIterator": Builtin(lambda ex, st, a, k: [Res("val", VSeq(PO_SEQ(a[0].z), PO_N(a[0].z), "ref", "Block"), st)],
+                                                   "the post-order sequence of the blocks reachable from the entry (C24's contract)"),
+                      "self.propagate_op_liveness": PropagateRegion.OpCallee()}
+
+    @property
+    def globals(self):
+        def ga(ex, st, base, attr):
+            if attr == "first_block":
+                return VRef(z3.If(CNB(base.z) > 0, CB(base.z)[0], 0), "Block")
+            if attr == "ops":
+                return VSeq(CO(base.z), CNO(base.z), "ref", "Operation")
+            return None
+
+        return {"__getattr__": ga}
+
+    def setup(self, st, inst):
+        return {"self": VRef(st.declare_input("self", z3.Int("self")), "LiveSet"), "region": VRef(st.declare_input("region", z3.Int("region")), "Region")}
+
+    def pre(self, st, a):
+        b, j = z3.Ints("pr!b pr!j")
+        self._fentry = st.snapshot()
+        return [A("objects", z3.And(a["self"].z != 0, a["region"].z != 0, st.sel("_live_ops", a["self"].z) != 0)),
+                A("sequences", z3.And(forall([b], z3.And(CNB(b) >= 0, CNO(b) >= 0, PO_N(b) >= 0)),
+                                      forall([b, j], z3.Implies(z3.And(j >= 0, j < CNO(b)), CO(b)[j] != 0)),
+                                      forall([b, j], z3.Implies(z3.And(j >= 0, j < PO_N(b)), PO_SEQ(b)[j] != 0))))]
+
+    def inv(self, n, entry, st, a, lv):
+        return [A(nm, z) for nm, z in region_post(self._fentry, st, a["self"].z)]
+
+    def post(self, old, st, a, res):
+        return [C(nm, z) for nm, z in region_post(old, st, a["self"].z) if nm != "same-set-object"] + [A("same-set-object", st.sel("_live_ops", a["self"].z) == old.sel("_live_ops", a["self"].z))]
+
+    def native_search(self, inst, seed):
+        r = N13.explore("quick", seed)
+        return r["failures"][0] if r["failures"] else None
 
 
 # ------------------------------------------------------------------ LiveSet.delete_dead
@@ -577,6 +643,7 @@ def make_specs(tier):
     add(LiveSetSpec("set_live"), [{}])
     add(LiveSetSpec("propagate_op_liveness"), [{"regions": k} for k in range(0, 3)])
     add(DeleteDead(), [{}])
+    add(PropagateRegion(), [{}])
     add(GetEffects(), [{}])
     add(RecursiveEffects(), [{}])
     return specs
@@ -588,7 +655,8 @@ ASSUMPTIONS = [
     "RecursiveMemoryEffect.get_effects are themselves under contract (a set only if every interface / every nested op reports known effects), with each "
     "interface's own answer uninterpreted",
     "the nested generator `any(is_live(use.operation) for result in op.results for use in result.uses)` is abstracted by 'some user of a result is live'",
-    "PatternRewriter.erase and propagate_region_liveness are trusted callee contracts here (C11 / bounded); LiveSet.delete_dead is under contract with trusted models "
+    "PatternRewriter.erase is a trusted callee contract here (C11); propagate_op_liveness and propagate_region_liveness are verified against each other's discharged contracts "
+    "(PostOrderIterator(first) is read as C24's post-order sequence); LiveSet.delete_dead is under contract with trusted models "
     "of erase_block / erase_op / the listener and of its own recursive call; region_dce's fixpoint "
     "('no removable operation or unreachable block remains', 'program results unchanged' as exact-remaining-set) are decided by the bounded stand-in only",
     "PostOrderIterator reachability is C24",
